@@ -499,12 +499,31 @@ fn main() {
     let a: Vec<String> = std::env::args().collect();
     let args = &Args::parse(&a[1..]);
     let mut out = Out::new(&args.out, "C03", args.shards, HEADER);
-    out.nontrivial_rule = "one case = one request sequence (8-30 requests + a KEYS/DBSIZE/MGET/EXISTS/TYPE/GET/LRANGE dump of every key of the case) run on a real 1-shard and a real N-shard ShardedActorState, N drawn from {2,3,16}; all entry paths mixed on 5-8 keys drawn from a pool that covers every shard of every N; 'pure' cases use only single-home requests, 'class' cases add two-key / keyless state-dependent commands, 'scan' cases add SCAN with a small COUNT, 'wide' cases add sets/hashes/zsets/counters (compared 1-vs-N only); every case also carries the routing facts observed by probing (shard-0 membership and co-location under both routing functions) and the raw DefaultHasher values of its keys; non-trivial = the N-shard run touched at least two different shards; distinct by request text".into();
+    out.nontrivial_rule = "one case = one request sequence (8-30 requests + a KEYS/DBSIZE/MGET/EXISTS/TYPE/GET/LRANGE dump of every key of the case) run on a real 1-shard and a real N-shard ShardedActorState, N drawn from {2,3,16}; all entry paths mixed on 5-8 keys drawn from a pool that covers every shard of every N; 'pure' cases use only single-home requests, 'class' cases add two-key / keyless state-dependent commands, 'scan' cases add SCAN with a small COUNT and cursors, 'wide' cases add sets/hashes/zsets/counters (compared 1-vs-N only); every case also carries the routing facts observed by probing (shard-0 membership and co-location under both routing functions) and the raw DefaultHasher values of its keys; non-trivial = the N-shard run touched at least two different shards; distinct by request text".into();
     if std::env::var("C03_PANICS").is_err() { std::panic::set_hook(Box::new(|_| {})); }
     let rt = tokio::runtime::Builder::new_current_thread().enable_all().build().unwrap();
     let range: Vec<u64> = match args.only { Some(i) => vec![i], None => (0..args.n).collect() };
     let (ps, pd) = (pool_s(), pool_d());
 
+    if args.get("nonutf8", 0) == 1 {
+        // observation only (not part of the check): a key that is not valid UTF-8
+        rt.block_on(async {
+            let raw: &[u8] = b"k\xff\xfe";
+            let lossy_key = String::from_utf8_lossy(raw).to_string();
+            for n in [1usize, 16] {
+                let st = instance(n);
+                let w = st.fast_set(bytes::Bytes::from_static(b"k\xff\xfe"), bytes::Bytes::from_static(b"v")).await;
+                let g_fast = st.fast_get(bytes::Bytes::from_static(b"k\xff\xfe")).await;
+                let g_gen = st.execute(&Command::Get(lossy_key.clone())).await;
+                let keys = st.execute(&Command::Keys("*".into())).await;
+                let w2 = st.execute(&Command::set(lossy_key.clone(), SDS::from_str("w"))).await;
+                let dbsize = st.execute(&Command::DbSize).await;
+                println!("{} shard(s): fast_set(k\\xff\\xfe)={} fast_get(raw)={} execute(GET lossy {:?})={} KEYS*={} then execute(SET lossy)={} DBSIZE={}",
+                    n, show(&w), show(&g_fast), lossy_key, show(&g_gen), show(&keys), show(&w2), show(&dbsize));
+            }
+        });
+        return;
+    }
     rt.block_on(async {
         // ---- partition of the key pools by shard, observed on real N-shard instances
         let mut probes: BTreeMap<usize, Probe> = BTreeMap::new();
@@ -664,9 +683,8 @@ fn main() {
                     "sequence": seq[..=j].iter().map(rq_text).collect::<Vec<_>>()});
                 if let Some(_) = class_before {
                     out.known("C03-cross-shard-keys", i, detail);
-                } else if let Some(_) = scan_before {
-                    out.known("C03-scan-cursor", i, detail);
                 } else {
+                    // (SCAN is single-home since /repo d46063a: a difference after a SCAN is a violation like any other)
                     out.violation(i, "N shards answered a request differently from 1 shard", detail);
                 }
             }
